@@ -7,15 +7,23 @@
       a table `t` (`sysvParams t` / `gnuParams t`), the symbol table is anything offering `get_symbol`
       that returns symbol `j` for `j < n` (exactly how the Python classes are parameterised);
     * the table predicates `WFSysV` / `WFGnu` are decidable and evaluated by the driver on every
-      generated table (`wf`), and hold of the builders' output on every case of the run.
+      generated table (`wf`); that they hold of the BUILDERS' output (`buildSysV`, `buildGnu` ∘ `gnuOrder`)
+      is proved for every symbol list (`buildSysV_wf`, `buildGnu_wf`, `buildGnu_perturbed_wf`), so the
+      lookup theorems are closed end to end over built tables (`sysv_lookup_built`, `gnu_lookup_built`,
+      their `_file` and `_generated` forms);
+    * whole-table forms: syminfo iteration (`syminfo_iter_exact`), the SHNDX companion table
+      (`shndx_table_exact`), and every table theorem over the regenerated bundles (`…_generated`).
 -/
 import PyElf.Spec.Symbols
 import PyElf.Model.Symbols
+import PyElf.Model.Env
 import PyElf.Proofs.HashFns
 import PyElf.Proofs.SysVLookup
 import PyElf.Proofs.GnuLookup
 import PyElf.Proofs.SymTable
 import PyElf.Proofs.HashParse
+import PyElf.Proofs.SymBuilt
+import PyElf.Proofs.SymImage
 import PyElf.Props.TieC03
 namespace PyElf.Props.C03
 open PyElf PyElf.Spec PyElf.Model PyElf.Proofs
@@ -290,5 +298,519 @@ example : WFSysV exNames (buildSysV exNames 2) = true := by decide
 example : WFSysV exNames (buildSysV exNames 1) = true := by decide
 example : WFGnu 64 exNames (buildGnu 64 exNames 1 1 1 6) = true := by decide
 example : WFGnu 32 exNames (buildGnu 32 exNames 1 3 2 5) = true := by decide
+
+/-! ## the table BUILDERS: every symbol list yields a well-formed table
+
+  `buildSysV` / `buildGnu` (with `gnuOrder`) are the constructions the run's inputs come from.  The
+  theorems below discharge the hypothesis `WFSysV … = true` / `WFGnu … = true` of the lookup theorems
+  for EVERY list of names (any size, duplicate and empty names, any number of buckets ≥ 1, any
+  `symoffset` with `1 ≤ symoffset ≤ n`, any Bloom size ≥ 1 and shift): the lookup theorems are not
+  vacuous on any input the builders accept, and the driver's run-time evaluation of the predicates on
+  built tables can only answer `true`.  Preconditions (all decidable, all necessary for the
+  predicates): entry 0 exists (`1 ≤ n`; it is the null symbol and is never hashed), every count fits
+  the 32-bit header words, and for GNU `1 ≤ symoffset` (index 0 means "empty bucket"). -/
+
+open PyElf.Proofs.C03 (sysvLastNamed SyminfoLayout syminfoObs GnuSorted builtEntries)
+
+/-- `buildSysV` (push-front, in index order) satisfies the gABI conditions, for every list of names -/
+theorem buildSysV_wf (names : List Bytes) (nb : Nat) (hn : 1 ≤ names.length) (hn32 : names.length < 2 ^ 32)
+    (hnb : 1 ≤ nb) (hnb32 : nb < 2 ^ 32) : WFSysV names (buildSysV names nb) = true :=
+  Proofs.C03.buildSysV_wf names nb hn hn32 hnb hnb32
+
+/-- `gnuOrder` permutes the symbols, -/
+theorem gnuOrder_perm {β : Type} (nb so : Nat) (syms : List (Bytes × β)) : (gnuOrder nb so syms).Perm syms :=
+  Proofs.C03.gnuOrder_perm nb so syms
+
+/-- leaves the unhashed symbols `i < symoffset` in place, -/
+theorem gnuOrder_take {β : Type} (nb so : Nat) (syms : List (Bytes × β)) :
+    (gnuOrder nb so syms).take so = syms.take so :=
+  Proofs.C03.gnuOrder_take nb so syms
+
+/-- permutes the hashed part within itself, -/
+theorem gnuOrder_hashed_perm {β : Type} (nb so : Nat) (syms : List (Bytes × β)) :
+    ((gnuOrder nb so syms).drop so).Perm (syms.drop so) :=
+  Proofs.C03.gnuOrder_drop_perm nb so syms
+
+/-- and sorts the hashed part by bucket -/
+theorem gnuOrder_sorted {β : Type} (nb so : Nat) (syms : List (Bytes × β)) :
+    GnuSorted nb (gnuHashes ((gnuOrder nb so syms).map (·.1)) so) :=
+  Proofs.C03.gnuOrder_sorted nb so syms
+
+/-- `buildGnu` over names whose hashed part is sorted by bucket satisfies the GNU-hash conditions
+    (Bloom bits of every hashed symbol set, words within the class, buckets = first symbol of each
+    bucket, chain words = hash with the end-of-bucket bit) -/
+theorem buildGnu_wf_sorted (cls : Nat) (names : List Bytes) (nb so bs sh : Nat) (hcls : 0 < cls)
+    (hnb : 1 ≤ nb) (hnb32 : nb < 2 ^ 32) (hbs : 1 ≤ bs) (hbs32 : bs < 2 ^ 32) (hsh32 : sh < 2 ^ 32)
+    (hso1 : 1 ≤ so) (hson : so ≤ names.length) (hn32 : names.length < 2 ^ 32)
+    (hsorted : GnuSorted nb (gnuHashes names so)) :
+    WFGnu cls names (buildGnu cls names nb so bs sh) = true :=
+  Proofs.C03.buildGnu_wf_sorted cls names nb so bs sh hcls hnb hnb32 hbs hbs32 hsh32 hso1 hson hn32 hsorted
+
+/-- for EVERY symbol list, ordered as the linker orders it -/
+theorem buildGnu_wf {β : Type} (cls : Nat) (syms : List (Bytes × β)) (nb so bs sh : Nat) (hcls : 0 < cls)
+    (hnb : 1 ≤ nb) (hnb32 : nb < 2 ^ 32) (hbs : 1 ≤ bs) (hbs32 : bs < 2 ^ 32) (hsh32 : sh < 2 ^ 32)
+    (hso1 : 1 ≤ so) (hson : so ≤ syms.length) (hn32 : syms.length < 2 ^ 32) :
+    WFGnu cls ((gnuOrder nb so syms).map (·.1)) (buildGnu cls ((gnuOrder nb so syms).map (·.1)) nb so bs sh) = true :=
+  Proofs.C03.buildGnu_wf cls syms nb so bs sh hcls hnb hnb32 hbs hbs32 hsh32 hso1 hson hn32
+
+/-- with extra Bloom bits (false positives; what the run's `bloom_or` perturbation produces) the table
+    stays well-formed -/
+theorem WFGnu_bloom_super (cls : Nat) (names : List Bytes) (t : GnuTable) (bloom' : List Nat)
+    (hwf : WFGnu cls names t = true) (hlen : bloom'.length = t.bloom.length) (hb : ∀ w ∈ bloom', w < 2 ^ cls)
+    (hsup : ∀ (i w : Nat), t.bloom[i]? = some w → ∃ w' : Nat, bloom'[i]? = some w' ∧ w' &&& w = w) :
+    WFGnu cls names { t with bloom := bloom' } = true :=
+  Proofs.C03.WFGnu_bloom_super cls names t bloom' hwf hlen hb hsup
+
+/-- exactly the table the run builds: `buildGnu` over the ordered names with the words `orW` ORed into
+    the Bloom filter (to provoke false positives) is well-formed, for every symbol list -/
+theorem buildGnu_perturbed_wf {β : Type} (cls : Nat) (syms : List (Bytes × β)) (nb so bs sh : Nat) (hcls : 0 < cls)
+    (hnb : 1 ≤ nb) (hnb32 : nb < 2 ^ 32) (hbs : 1 ≤ bs) (hbs32 : bs < 2 ^ 32) (hsh32 : sh < 2 ^ 32)
+    (hso1 : 1 ≤ so) (hson : so ≤ syms.length) (hn32 : syms.length < 2 ^ 32)
+    (orW : List Nat) (hor : ∀ w ∈ orW, w < 2 ^ cls) :
+    WFGnu cls ((gnuOrder nb so syms).map (·.1))
+      { buildGnu cls ((gnuOrder nb so syms).map (·.1)) nb so bs sh with
+        bloom := ((buildGnu cls ((gnuOrder nb so syms).map (·.1)) nb so bs sh).bloom.zipIdx).map
+                    fun (w, i) => w ||| orW.getD i 0 } = true :=
+  Proofs.C03.WFGnu_bloomOr cls _ _ orW
+    (Proofs.C03.buildGnu_wf cls syms nb so bs sh hcls hnb hnb32 hbs hbs32 hsh32 hso1 hson hn32) hor
+
+/-- non-vacuity of the builder theorems: their hypotheses are plain range conditions -/
+example : WFSysV exNames (buildSysV exNames 3) = true :=
+  buildSysV_wf exNames 3 (by decide) (by decide) (by decide) (by decide)
+example : WFGnu 64 ((gnuOrder 5 2 (exNames.map fun n => (n, ()))).map (·.1))
+    (buildGnu 64 ((gnuOrder 5 2 (exNames.map fun n => (n, ()))).map (·.1)) 5 2 2 6) = true :=
+  buildGnu_wf 64 _ 5 2 2 6 (by decide) (by decide) (by decide) (by decide) (by decide) (by decide) (by decide)
+    (by decide) (by decide)
+/-- the ordering really moves symbols: with 5 buckets the hashed part of `exNames` is rearranged -/
+example : (gnuOrder 5 2 (exNames.map fun n => (n, ()))).map (·.1) ≠ exNames := by decide
+
+/-! ### end to end over built tables -/
+
+/-- SysV, exact: on the bytes of the table built for ANY list of names, `__init__` succeeds, the count
+    is the table length, and the lookup of any name returns the highest-indexed symbol `1 ≤ i < n`
+    bearing it (`None` if there is none) -/
+theorem sysv_lookup_built_exact (env : Env) (c : ElfCfg) (names : List Bytes) (nb : Nat)
+    (hn : 1 ≤ names.length) (hn32 : names.length < 2 ^ 32) (hnb : 1 ≤ nb) (hnb32 : nb < 2 ^ 32)
+    (pre rest : Bytes) (getSym : Nat → R Symbol) (sym : Nat → Symbol)
+    (hget : ∀ j, j < names.length → getSym j = .ok (sym j))
+    (hname : ∀ j, j < names.length → (sym j).2 = names.getD j []) :
+    ∃ params, elfHashInit (Spec.elfStructs c) env (pre ++ encSysV c.le (buildSysV names nb) ++ rest) pre.length = .ok params
+      ∧ elfHashCount params = .ok (.int names.length)
+      ∧ ∀ name, elfHashGetSymbol params getSym name = .ok ((sysvLastNamed names name).map sym) :=
+  Proofs.C03.sysv_built_bytes env c names nb hn hn32 hnb hnb32 _ _ rest (drop_pre pre _ rest) getSym sym hget hname
+
+/-- what `sysvLastNamed` denotes -/
+theorem sysvLastNamed_spec (names : List Bytes) (name : Bytes) :
+    (∀ j, sysvLastNamed names name = some j →
+        1 ≤ j ∧ j < names.length ∧ names.getD j [] = name ∧ ∀ i, j < i → i < names.length → names.getD i [] ≠ name)
+      ∧ (sysvLastNamed names name = none → ∀ i, 1 ≤ i → i < names.length → names.getD i [] ≠ name) :=
+  ⟨fun _ h => ⟨(Proofs.C03.sysvLastNamed_some h).1, (Proofs.C03.sysvLastNamed_some h).2.1,
+      (Proofs.C03.sysvLastNamed_some h).2.2, Proofs.C03.sysvLastNamed_last h⟩,
+   Proofs.C03.sysvLastNamed_none⟩
+
+/-- SysV: every name present among the symbols `1 ≤ i < n` is found, every absent name is not, and
+    the recovered count is the table length — for every list of names and every bucket count -/
+theorem sysv_lookup_built (env : Env) (c : ElfCfg) (names : List Bytes) (nb : Nat)
+    (hn : 1 ≤ names.length) (hn32 : names.length < 2 ^ 32) (hnb : 1 ≤ nb) (hnb32 : nb < 2 ^ 32)
+    (pre rest : Bytes) (getSym : Nat → R Symbol) (sym : Nat → Symbol)
+    (hget : ∀ j, j < names.length → getSym j = .ok (sym j))
+    (hname : ∀ j, j < names.length → (sym j).2 = names.getD j []) :
+    ∃ params, elfHashInit (Spec.elfStructs c) env (pre ++ encSysV c.le (buildSysV names nb) ++ rest) pre.length = .ok params
+      ∧ elfHashCount params = .ok (.int names.length)
+      ∧ (∀ i, 1 ≤ i → i < names.length → ∃ j, 1 ≤ j ∧ j < names.length ∧ names.getD j [] = names.getD i [] ∧
+            elfHashGetSymbol params getSym (names.getD i []) = .ok (some (sym j)))
+      ∧ (∀ name, (∀ i, 1 ≤ i → i < names.length → names.getD i [] ≠ name) →
+            elfHashGetSymbol params getSym name = .ok none) := by
+  obtain ⟨params, h1, h2, h3⟩ :=
+    sysv_lookup_built_exact env c names nb hn hn32 hnb hnb32 pre rest getSym sym hget hname
+  refine ⟨params, h1, h2, ?_, ?_⟩
+  · intro i hi1 hin
+    cases hl : sysvLastNamed names (names.getD i []) with
+    | none => exact absurd rfl (Proofs.C03.sysvLastNamed_none hl i hi1 hin)
+    | some j =>
+      obtain ⟨a, b, c'⟩ := Proofs.C03.sysvLastNamed_some hl
+      exact ⟨j, a, b, c', by rw [h3, hl]; rfl⟩
+  · intro name habs
+    cases hl : sysvLastNamed names name with
+    | none => rw [h3, hl]; rfl
+    | some j =>
+      obtain ⟨a, b, c'⟩ := Proofs.C03.sysvLastNamed_some hl
+      exact absurd c' (habs j a b)
+
+/-- SysV, whole file: the symbol table of the lookups is the real `get_symbol` over a laid-out symbol
+    table in the same file, the hash table the one built for its names -/
+theorem sysv_lookup_built_file {le : Bool} {cls : Nat} {data : Bytes} {h : SecHdr} {strOff : Nat} {es : List SymE}
+    {names : List Bytes} (env : Env) (m : String) (sol core : Bool)
+    (L : SymtabLayout le cls data h strOff es names) (nb : Nat)
+    (hn : 1 ≤ es.length) (hn32 : es.length < 2 ^ 32) (hnb : 1 ≤ nb) (hnb32 : nb < 2 ^ 32)
+    (off : Nat) (rest : Bytes) (hd : data.drop off = encSysV le (buildSysV names nb) ++ rest) :
+    ∃ params, elfHashInit (Spec.elfStructs ⟨le, cls, m, sol, core⟩) env data off = .ok params
+      ∧ elfHashCount params = .ok (.int es.length)
+      ∧ ∀ name, elfHashGetSymbol params (getSymbol (Spec.elfStructs ⟨le, cls, m, sol, core⟩) env data h strOff) name
+          = .ok ((sysvLastNamed names name).map (symObs env.enumDecode cls es names)) := by
+  have hl := L.nlen
+  have := Proofs.C03.sysv_built_bytes env ⟨le, cls, m, sol, core⟩ names nb (by omega) (by omega) hnb hnb32 data off rest hd
+    (getSymbol (Spec.elfStructs ⟨le, cls, m, sol, core⟩) env data h strOff) (symObs env.enumDecode cls es names)
+    (fun j hj => layout_getSymbol env m sol core L j (by omega)) (fun _ _ => rfl)
+  rwa [hl] at this
+
+/-- GNU, exact: on the bytes of the table built for ANY symbol list (ordered by `gnuOrder`), `__init__`
+    succeeds, the recovered count is the number of symbols, and the lookup of any name returns the
+    first hashed symbol bearing it (`None` if there is none) -/
+theorem gnu_lookup_built_exact {β : Type} (env : Env) (c : ElfCfg) (hcls : c.cls = 32 ∨ c.cls = 64)
+    (syms : List (Bytes × β)) (nb so bs sh : Nat)
+    (hnb : 1 ≤ nb) (hnb32 : nb < 2 ^ 32) (hbs : 1 ≤ bs) (hbs32 : bs < 2 ^ 32) (hsh32 : sh < 2 ^ 32)
+    (hso1 : 1 ≤ so) (hson : so ≤ syms.length) (hn32 : syms.length < 2 ^ 32)
+    (pre rest : Bytes) (getSym : Nat → R Symbol) (sym : Nat → Symbol)
+    (hget : ∀ j, j < ((gnuOrder nb so syms).map (·.1)).length → getSym j = .ok (sym j))
+    (hname : ∀ j, j < ((gnuOrder nb so syms).map (·.1)).length → (sym j).2 = ((gnuOrder nb so syms).map (·.1)).getD j []) :
+    ∃ g, gnuHashInit (Spec.elfStructs c) env c.cls
+          (pre ++ encGnu c.le c.cls (buildGnu c.cls ((gnuOrder nb so syms).map (·.1)) nb so bs sh) ++ rest) pre.length = .ok g
+      ∧ gnuHashCount c.le (pre ++ encGnu c.le c.cls (buildGnu c.cls ((gnuOrder nb so syms).map (·.1)) nb so bs sh) ++ rest) g
+          = .ok syms.length
+      ∧ ∀ name, gnuHashGetSymbol c.le c.cls
+            (pre ++ encGnu c.le c.cls (buildGnu c.cls ((gnuOrder nb so syms).map (·.1)) nb so bs sh) ++ rest) g getSym name
+          = .ok ((gnuFirstNamed ((gnuOrder nb so syms).map (·.1)) so name).map sym) :=
+  Proofs.C03.gnu_built_bytes env c hcls syms nb so bs sh hnb hnb32 hbs hbs32 hsh32 hso1 hson hn32 _ _ rest
+    (drop_pre pre _ rest) getSym sym hget hname
+
+/-- GNU: every name borne by a symbol of the hashed part `syms.drop symoffset` of the ORIGINAL list is
+    found (a symbol with that name, at a hashed index of the ordered table, is returned), every name
+    not borne by one is not found — Bloom false positives, bucket and hash collisions included —, and
+    the recovered count is the number of symbols; for every symbol list and all table parameters -/
+theorem gnu_lookup_built {β : Type} (env : Env) (c : ElfCfg) (hcls : c.cls = 32 ∨ c.cls = 64)
+    (syms : List (Bytes × β)) (nb so bs sh : Nat)
+    (hnb : 1 ≤ nb) (hnb32 : nb < 2 ^ 32) (hbs : 1 ≤ bs) (hbs32 : bs < 2 ^ 32) (hsh32 : sh < 2 ^ 32)
+    (hso1 : 1 ≤ so) (hson : so ≤ syms.length) (hn32 : syms.length < 2 ^ 32)
+    (pre rest : Bytes) (getSym : Nat → R Symbol) (sym : Nat → Symbol)
+    (hget : ∀ j, j < ((gnuOrder nb so syms).map (·.1)).length → getSym j = .ok (sym j))
+    (hname : ∀ j, j < ((gnuOrder nb so syms).map (·.1)).length → (sym j).2 = ((gnuOrder nb so syms).map (·.1)).getD j []) :
+    ∃ g, gnuHashInit (Spec.elfStructs c) env c.cls
+          (pre ++ encGnu c.le c.cls (buildGnu c.cls ((gnuOrder nb so syms).map (·.1)) nb so bs sh) ++ rest) pre.length = .ok g
+      ∧ gnuHashCount c.le (pre ++ encGnu c.le c.cls (buildGnu c.cls ((gnuOrder nb so syms).map (·.1)) nb so bs sh) ++ rest) g
+          = .ok syms.length
+      ∧ (∀ s ∈ syms.drop so, ∃ j, so ≤ j ∧ j < syms.length ∧ ((gnuOrder nb so syms).map (·.1)).getD j [] = s.1 ∧
+          gnuHashGetSymbol c.le c.cls
+            (pre ++ encGnu c.le c.cls (buildGnu c.cls ((gnuOrder nb so syms).map (·.1)) nb so bs sh) ++ rest) g getSym s.1
+            = .ok (some (sym j)))
+      ∧ (∀ name, (∀ s ∈ syms.drop so, s.1 ≠ name) →
+          gnuHashGetSymbol c.le c.cls
+            (pre ++ encGnu c.le c.cls (buildGnu c.cls ((gnuOrder nb so syms).map (·.1)) nb so bs sh) ++ rest) g getSym name
+            = .ok none) := by
+  obtain ⟨g, h1, h2, h3⟩ := gnu_lookup_built_exact env c hcls syms nb so bs sh hnb hnb32 hbs hbs32 hsh32 hso1 hson hn32
+    pre rest getSym sym hget hname
+  have hl : ((gnuOrder nb so syms).map (·.1)).length = syms.length := by
+    rw [List.length_map, Proofs.C03.gnuOrder_length]
+  refine ⟨g, h1, h2, ?_, ?_⟩
+  · intro s hs
+    obtain ⟨i, hi1, hi2, hi3⟩ := Proofs.C03.gnuOrder_hashed_mem nb so syms s hs
+    cases hf : gnuFirstNamed ((gnuOrder nb so syms).map (·.1)) so s.1 with
+    | none =>
+      exfalso
+      refine firstFrom_ne_none (fun i => ((gnuOrder nb so syms).map (·.1)).getD i [] == s.1) _ so (i - so) (by omega) ?_ hf
+      rw [show so + (i - so) = i by omega]; simpa using hi3
+    | some j =>
+      obtain ⟨a, b, c', _⟩ := firstFrom_spec _ _ _ _ hf
+      exact ⟨j, a, by omega, by simpa using c', by rw [h3, hf]; rfl⟩
+  · intro name habs
+    cases hf : gnuFirstNamed ((gnuOrder nb so syms).map (·.1)) so name with
+    | none => rw [h3, hf]; rfl
+    | some j =>
+      exfalso
+      obtain ⟨a, b, c', _⟩ := firstFrom_spec _ _ _ _ hf
+      obtain ⟨s, hs, hsn⟩ := Proofs.C03.gnuOrder_hashed_of_idx nb so syms j a (by omega)
+      exact habs s hs (by rw [← hsn]; simpa using c')
+
+/-- GNU, whole file: lookups through the real `get_symbol` over the laid-out (ordered) symbol table -/
+theorem gnu_lookup_built_file {β : Type} {le : Bool} {cls : Nat} {data : Bytes} {h : SecHdr} {strOff : Nat}
+    {es : List SymE} (env : Env) (m : String) (sol core : Bool) (syms : List (Bytes × β)) (nb so bs sh : Nat)
+    (L : SymtabLayout le cls data h strOff es ((gnuOrder nb so syms).map (·.1)))
+    (hnb : 1 ≤ nb) (hnb32 : nb < 2 ^ 32) (hbs : 1 ≤ bs) (hbs32 : bs < 2 ^ 32) (hsh32 : sh < 2 ^ 32)
+    (hso1 : 1 ≤ so) (hson : so ≤ syms.length) (hn32 : syms.length < 2 ^ 32)
+    (off : Nat) (rest : Bytes)
+    (hd : data.drop off = encGnu le cls (buildGnu cls ((gnuOrder nb so syms).map (·.1)) nb so bs sh) ++ rest) :
+    ∃ g, gnuHashInit (Spec.elfStructs ⟨le, cls, m, sol, core⟩) env cls data off = .ok g
+      ∧ gnuHashCount le data g = .ok es.length
+      ∧ ∀ name, gnuHashGetSymbol le cls data g (getSymbol (Spec.elfStructs ⟨le, cls, m, sol, core⟩) env data h strOff) name
+          = .ok ((gnuFirstNamed ((gnuOrder nb so syms).map (·.1)) so name).map
+                  (symObs env.enumDecode cls es ((gnuOrder nb so syms).map (·.1)))) := by
+  have hl : ((gnuOrder nb so syms).map (·.1)).length = syms.length := by
+    rw [List.length_map, Proofs.C03.gnuOrder_length]
+  have hle := L.nlen
+  have := Proofs.C03.gnu_built_bytes env ⟨le, cls, m, sol, core⟩ L.hcls syms nb so bs sh hnb hnb32 hbs hbs32 hsh32
+    hso1 hson hn32 data off rest hd
+    (getSymbol (Spec.elfStructs ⟨le, cls, m, sol, core⟩) env data h strOff)
+    (symObs env.enumDecode cls es ((gnuOrder nb so syms).map (·.1)))
+    (fun j hj => layout_getSymbol env m sol core L j (by omega)) (fun _ _ => rfl)
+  rwa [show syms.length = es.length by omega] at this
+
+/-! ### SUNW syminfo, whole table (TASK 2) -/
+
+/-- `SUNWSyminfoTableSection.num_symbols` and `list(iter_symbols())`: the entries 1 … k−1 of a table of
+    `k` entries in order (entry 0, the version record, is skipped; `k = 0` gives `num_symbols = −1`
+    and nothing), each paired with the name of the same-numbered symbol of the linked symbol table -/
+theorem syminfo_iter_exact {le : Bool} {cls : Nat} {data : Bytes} {h symH : SecHdr} {strOff : Nat} {es : List SymE}
+    {names : List Bytes} {si : List (Nat × Nat)} (env : Env) (m : String) (sol core : Bool)
+    (L : SymtabLayout le cls data symH strOff es names) (LS : SyminfoLayout le data h si)
+    (hle : si.length ≤ es.length) :
+    syminfoNum h = .ok ((si.length : Int) - 1)
+      ∧ syminfoIter (Spec.elfStructs ⟨le, cls, m, sol, core⟩) env data h symH strOff
+          = .ok ((List.range' 1 (si.length - 1)).map (syminfoObs env.enumDecode si names)) :=
+  ⟨Proofs.C03.syminfoNum_ok LS, Proofs.C03.syminfoIter_ok env m sol core L LS hle⟩
+
+/-- the packed section every producer writes (`sh_entsize = 4`, the encoded entries at `sh_offset`) is such a layout -/
+theorem syminfo_packed_layout (le : Bool) (data : Bytes) (h : SecHdr) (si : List (Nat × Nat)) (rest : Bytes)
+    (hent : h.entsize = 4) (hsize : h.size = si.length * 4)
+    (hwf : ∀ e ∈ si, e.1 < 65536 ∧ e.2 < 65536) (hd : data.drop h.off = encSyminfo le si ++ rest) :
+    SyminfoLayout le data h si :=
+  Proofs.C03.syminfoLayout_packed le data h si rest hent hsize hwf hd
+
+/-! ### SHT_SYMTAB_SHNDX, whole table; everything closed over the regenerated bundles (TASK 3) -/
+
+/-- every entry of the companion table: `get_section_index(n)` is the `n`-th word, for all `n` in range -/
+theorem shndx_table_exact (env : Env) (c : ElfCfg) (data : Bytes) (h : SecHdr) (ws : List Nat) (rest : Bytes)
+    (hent : h.entsize = 4) (hws : ∀ w ∈ ws, w < 2 ^ 32) (hd : data.drop h.off = encShndx c.le ws ++ rest)
+    (n : Nat) (hn : n < ws.length) :
+    getSectionIndex (Spec.elfStructs c) env data h n = .ok (.int ws[n]) :=
+  Proofs.C03.shndx_table_ok env c data h ws rest hent hws hd n hn
+
+section generated
+variable (c : ElfCfg) (S : ElfStructs) (hS : (c, S) ∈ Gen.elfBundles)
+include hS
+
+/-- Elf_Sym round trip with the bundle and the code tables regenerated from the library on this run -/
+theorem sym_roundtrip_generated (hcls : c.cls = 32 ∨ c.cls = 64) (e : SymE) (hwf : e.WF c.cls = true) (pre rest : Bytes) :
+    structParse Model.elfEnv S.Elf_Sym (pre ++ encSym c.le c.cls e ++ rest) pre.length
+      = .ok (obsEntry Model.elfEnv.enumDecode c.cls e, pre.length + symSize c.cls) := by
+  rw [TieC03.field_of_tie (·.Elf_Sym) TieC03.elf_Elf_Sym hS]
+  obtain ⟨le, cls, m, sol, core⟩ := c
+  rcases hcls with h | h
+  · simp only at h; subst h; exact sym_roundtrip32 Model.elfEnv le m sol core e hwf pre rest
+  · simp only at h; subst h; exact sym_roundtrip64 Model.elfEnv le m sol core e hwf pre rest
+
+theorem iter_symbols_exact_generated {data : Bytes} {h : SecHdr} {strOff : Nat} {es : List SymE} {names : List Bytes}
+    (L : SymtabLayout c.le c.cls data h strOff es names) :
+    iterSymbols S Model.elfEnv data h strOff
+      = .ok ((List.range es.length).map (symObs Model.elfEnv.enumDecode c.cls es names)) := by
+  rw [Proofs.C03.iterSymbols_congr (TieC03.field_of_tie (·.Elf_Sym) TieC03.elf_Elf_Sym hS)]
+  exact layout_iterSymbols Model.elfEnv c.mclass c.solaris c.core L
+
+theorem by_name_exact_generated {data : Bytes} {h : SecHdr} {strOff : Nat} {es : List SymE} {names : List Bytes}
+    (L : SymtabLayout c.le c.cls data h strOff es names) (name : Bytes) :
+    getSymbolByName S Model.elfEnv data h strOff name
+      = .ok (if byName names name = [] then none
+             else some ((byName names name).map (symObs Model.elfEnv.enumDecode c.cls es names))) := by
+  rw [Proofs.C03.getSymbolByName_congr (TieC03.field_of_tie (·.Elf_Sym) TieC03.elf_Elf_Sym hS)]
+  exact layout_byName Model.elfEnv c.mclass c.solaris c.core L name
+
+/-- SysV hash lookups over a whole file, regenerated bundle: built table, real `get_symbol` -/
+theorem sysv_lookup_built_generated {data : Bytes} {h : SecHdr} {strOff : Nat} {es : List SymE} {names : List Bytes}
+    (L : SymtabLayout c.le c.cls data h strOff es names) (nb : Nat)
+    (hn : 1 ≤ es.length) (hn32 : es.length < 2 ^ 32) (hnb : 1 ≤ nb) (hnb32 : nb < 2 ^ 32)
+    (off : Nat) (rest : Bytes) (hd : data.drop off = encSysV c.le (buildSysV names nb) ++ rest) :
+    ∃ params, elfHashInit S Model.elfEnv data off = .ok params
+      ∧ elfHashCount params = .ok (.int es.length)
+      ∧ ∀ name, elfHashGetSymbol params (getSymbol S Model.elfEnv data h strOff) name
+          = .ok ((sysvLastNamed names name).map (symObs Model.elfEnv.enumDecode c.cls es names)) := by
+  rw [Proofs.C03.elfHashInit_congr (TieC03.field_of_tie (·.Elf_Hash) TieC03.elf_Elf_Hash hS),
+    Proofs.C03.getSymbol_congr (TieC03.field_of_tie (·.Elf_Sym) TieC03.elf_Elf_Sym hS)]
+  exact sysv_lookup_built_file Model.elfEnv c.mclass c.solaris c.core L nb hn hn32 hnb hnb32 off rest hd
+
+/-- GNU hash lookups over a whole file, regenerated bundle -/
+theorem gnu_lookup_built_generated {β : Type} {data : Bytes} {h : SecHdr} {strOff : Nat} {es : List SymE}
+    (syms : List (Bytes × β)) (nb so bs sh : Nat)
+    (L : SymtabLayout c.le c.cls data h strOff es ((gnuOrder nb so syms).map (·.1)))
+    (hnb : 1 ≤ nb) (hnb32 : nb < 2 ^ 32) (hbs : 1 ≤ bs) (hbs32 : bs < 2 ^ 32) (hsh32 : sh < 2 ^ 32)
+    (hso1 : 1 ≤ so) (hson : so ≤ syms.length) (hn32 : syms.length < 2 ^ 32)
+    (off : Nat) (rest : Bytes)
+    (hd : data.drop off = encGnu c.le c.cls (buildGnu c.cls ((gnuOrder nb so syms).map (·.1)) nb so bs sh) ++ rest) :
+    ∃ g, gnuHashInit S Model.elfEnv c.cls data off = .ok g
+      ∧ gnuHashCount c.le data g = .ok es.length
+      ∧ ∀ name, gnuHashGetSymbol c.le c.cls data g (getSymbol S Model.elfEnv data h strOff) name
+          = .ok ((gnuFirstNamed ((gnuOrder nb so syms).map (·.1)) so name).map
+                  (symObs Model.elfEnv.enumDecode c.cls es ((gnuOrder nb so syms).map (·.1)))) := by
+  rw [Proofs.C03.gnuHashInit_congr (TieC03.field_of_tie (·.Gnu_Hash) TieC03.elf_Gnu_Hash hS),
+    Proofs.C03.getSymbol_congr (TieC03.field_of_tie (·.Elf_Sym) TieC03.elf_Elf_Sym hS)]
+  exact gnu_lookup_built_file Model.elfEnv c.mclass c.solaris c.core syms nb so bs sh L hnb hnb32 hbs hbs32 hsh32
+    hso1 hson hn32 off rest hd
+
+theorem shndx_table_exact_generated (data : Bytes) (h : SecHdr) (ws : List Nat) (rest : Bytes)
+    (hent : h.entsize = 4) (hws : ∀ w ∈ ws, w < 2 ^ 32) (hd : data.drop h.off = encShndx c.le ws ++ rest)
+    (n : Nat) (hn : n < ws.length) :
+    getSectionIndex S Model.elfEnv data h n = .ok (.int ws[n]) := by
+  rw [Proofs.C03.getSectionIndex_congr (TieC03.field_of_tie (·.Elf_word) TieC03.elf_Elf_word hS)]
+  exact shndx_table_exact Model.elfEnv c data h ws rest hent hws hd n hn
+
+theorem syminfo_iter_exact_generated {data : Bytes} {h symH : SecHdr} {strOff : Nat} {es : List SymE}
+    {names : List Bytes} {si : List (Nat × Nat)}
+    (L : SymtabLayout c.le c.cls data symH strOff es names) (LS : SyminfoLayout c.le data h si)
+    (hle : si.length ≤ es.length) :
+    syminfoIter S Model.elfEnv data h symH strOff
+      = .ok ((List.range' 1 (si.length - 1)).map (syminfoObs Model.elfEnv.enumDecode si names)) := by
+  rw [Proofs.C03.syminfoIter_congr (TieC03.field_of_tie (·.Elf_Sym) TieC03.elf_Elf_Sym hS)
+    (TieC03.field_of_tie (·.Elf_Sunw_Syminfo) TieC03.elf_Elf_Sunw_Syminfo hS)]
+  exact (syminfo_iter_exact Model.elfEnv c.mclass c.solaris c.core L LS hle).2
+
+end generated
+
+/-! ### whole images built from one symbol list: string table, entries and hash table
+
+  The symbol-table side of the run's inputs is built by `buildStrtab` and `encSymtab`.  The theorems
+  below discharge `SymtabLayout` for every symbol list (names without NUL, fields in range, string
+  table shorter than 2^32), so that nothing about the generated inputs remains a hypothesis. -/
+
+/-- `buildStrtab` (with or without sharing of equal names): one offset per name, each denoting its name -/
+theorem buildStrtab_exact (share : Bool) (names : List Bytes) (hnul : ∀ nm ∈ names, (0 : UInt8) ∉ nm) :
+    (buildStrtab share names).2.length = names.length
+      ∧ ∀ i (hi : i < names.length), ∃ o, (buildStrtab share names).2[i]? = some o
+          ∧ strAt (buildStrtab share names).1 o = some names[i] :=
+  Proofs.C03.buildStrtab_ok share names hnul
+
+/-- the entries and the string table built from any symbol list, anywhere in a file, are a `SymtabLayout`
+    (stride `symSize + pad`; `sh_size = n · sh_entsize`) -/
+theorem built_symtab_layout (le : Bool) (cls pad : Nat) (share : Bool) (syms : List (Bytes × SymE))
+    (hcls : cls = 32 ∨ cls = 64)
+    (hnul : ∀ s ∈ syms, (0 : UInt8) ∉ s.1) (hwf : ∀ s ∈ syms, s.2.WF cls = true)
+    (hlen : (buildStrtab share (syms.map (·.1))).1.length < 2 ^ 32)
+    (data : Bytes) (symOff strOff : Nat) (rest1 rest2 : Bytes)
+    (h1 : data.drop symOff
+        = encSymtab le cls pad (builtEntries syms (buildStrtab share (syms.map (·.1))).2) ++ rest1)
+    (h2 : data.drop strOff = (buildStrtab share (syms.map (·.1))).1 ++ rest2) :
+    SymtabLayout le cls data ⟨symOff, syms.length * (symSize cls + pad), symSize cls + pad⟩ strOff
+      (builtEntries syms (buildStrtab share (syms.map (·.1))).2) (syms.map (·.1)) :=
+  Proofs.C03.built_layout le cls pad share syms hcls hnul hwf hlen data symOff strOff rest1 rest2 h1 h2
+
+/-- SysV, the whole image from ONE symbol list (any size ≥ 1, duplicates, empty names, any padding,
+    shared or unshared string table, any bucket count ≥ 1), regenerated bundle and code tables:
+    enumeration yields exactly the symbols; `__init__` of the hash table succeeds; the recovered count is
+    the number of symbols; every lookup returns the highest-indexed symbol `1 ≤ i < n` bearing the name,
+    or `None` -/
+theorem sysv_image_generated (c : ElfCfg) (S : ElfStructs) (hS : (c, S) ∈ Gen.elfBundles)
+    (hcls : c.cls = 32 ∨ c.cls = 64) (pad : Nat) (share : Bool) (syms : List (Bytes × SymE)) (nb : Nat)
+    (hnul : ∀ s ∈ syms, (0 : UInt8) ∉ s.1) (hwf : ∀ s ∈ syms, s.2.WF c.cls = true)
+    (hlen : (buildStrtab share (syms.map (·.1))).1.length < 2 ^ 32)
+    (hn : 1 ≤ syms.length) (hn32 : syms.length < 2 ^ 32) (hnb : 1 ≤ nb) (hnb32 : nb < 2 ^ 32)
+    (data : Bytes) (symOff strOff hashOff : Nat) (rest1 rest2 rest3 : Bytes)
+    (h1 : data.drop symOff
+        = encSymtab c.le c.cls pad (builtEntries syms (buildStrtab share (syms.map (·.1))).2) ++ rest1)
+    (h2 : data.drop strOff = (buildStrtab share (syms.map (·.1))).1 ++ rest2)
+    (h3 : data.drop hashOff = encSysV c.le (buildSysV (syms.map (·.1)) nb) ++ rest3) :
+    iterSymbols S Model.elfEnv data ⟨symOff, syms.length * (symSize c.cls + pad), symSize c.cls + pad⟩ strOff
+        = .ok ((List.range syms.length).map (symObs Model.elfEnv.enumDecode c.cls
+                (builtEntries syms (buildStrtab share (syms.map (·.1))).2) (syms.map (·.1))))
+      ∧ ∃ params, elfHashInit S Model.elfEnv data hashOff = .ok params
+          ∧ elfHashCount params = .ok (.int syms.length)
+          ∧ ∀ name, elfHashGetSymbol params
+                (getSymbol S Model.elfEnv data ⟨symOff, syms.length * (symSize c.cls + pad), symSize c.cls + pad⟩ strOff) name
+              = .ok ((sysvLastNamed (syms.map (·.1)) name).map (symObs Model.elfEnv.enumDecode c.cls
+                  (builtEntries syms (buildStrtab share (syms.map (·.1))).2) (syms.map (·.1)))) := by
+  have L := built_symtab_layout c.le c.cls pad share syms hcls hnul hwf hlen data symOff strOff rest1 rest2 h1 h2
+  have hel : (builtEntries syms (buildStrtab share (syms.map (·.1))).2).length = syms.length := by
+    rw [← L.nlen, List.length_map]
+  have a := iter_symbols_exact_generated c S hS L
+  have b := sysv_lookup_built_generated c S hS L nb (by omega) (by omega) hnb hnb32 hashOff rest3 h3
+  rw [hel] at a b
+  exact ⟨a, b⟩
+
+/-- GNU, the whole image from ONE symbol list, ordered by `gnuOrder` (any size, any `1 ≤ symoffset ≤ n`,
+    any bucket count ≥ 1, Bloom size ≥ 1, shift), regenerated bundle and code tables: enumeration
+    yields exactly the (ordered) symbols; `__init__` succeeds; the count recovered from buckets and
+    chain is the number of symbols; every lookup returns the first hashed symbol bearing the name, or `None` -/
+theorem gnu_image_generated (c : ElfCfg) (S : ElfStructs) (hS : (c, S) ∈ Gen.elfBundles)
+    (hcls : c.cls = 32 ∨ c.cls = 64) (pad : Nat) (share : Bool) (syms0 : List (Bytes × SymE)) (nb so bs sh : Nat)
+    (hnul : ∀ s ∈ syms0, (0 : UInt8) ∉ s.1) (hwf : ∀ s ∈ syms0, s.2.WF c.cls = true)
+    (hlen : (buildStrtab share ((gnuOrder nb so syms0).map (·.1))).1.length < 2 ^ 32)
+    (hnb : 1 ≤ nb) (hnb32 : nb < 2 ^ 32) (hbs : 1 ≤ bs) (hbs32 : bs < 2 ^ 32) (hsh32 : sh < 2 ^ 32)
+    (hso1 : 1 ≤ so) (hson : so ≤ syms0.length) (hn32 : syms0.length < 2 ^ 32)
+    (data : Bytes) (symOff strOff hashOff : Nat) (rest1 rest2 rest3 : Bytes)
+    (h1 : data.drop symOff = encSymtab c.le c.cls pad
+            (builtEntries (gnuOrder nb so syms0) (buildStrtab share ((gnuOrder nb so syms0).map (·.1))).2) ++ rest1)
+    (h2 : data.drop strOff = (buildStrtab share ((gnuOrder nb so syms0).map (·.1))).1 ++ rest2)
+    (h3 : data.drop hashOff
+        = encGnu c.le c.cls (buildGnu c.cls ((gnuOrder nb so syms0).map (·.1)) nb so bs sh) ++ rest3) :
+    iterSymbols S Model.elfEnv data ⟨symOff, syms0.length * (symSize c.cls + pad), symSize c.cls + pad⟩ strOff
+        = .ok ((List.range syms0.length).map (symObs Model.elfEnv.enumDecode c.cls
+                (builtEntries (gnuOrder nb so syms0) (buildStrtab share ((gnuOrder nb so syms0).map (·.1))).2)
+                ((gnuOrder nb so syms0).map (·.1))))
+      ∧ ∃ g, gnuHashInit S Model.elfEnv c.cls data hashOff = .ok g
+          ∧ gnuHashCount c.le data g = .ok syms0.length
+          ∧ ∀ name, gnuHashGetSymbol c.le c.cls data g
+                (getSymbol S Model.elfEnv data ⟨symOff, syms0.length * (symSize c.cls + pad), symSize c.cls + pad⟩ strOff) name
+              = .ok ((gnuFirstNamed ((gnuOrder nb so syms0).map (·.1)) so name).map (symObs Model.elfEnv.enumDecode c.cls
+                  (builtEntries (gnuOrder nb so syms0) (buildStrtab share ((gnuOrder nb so syms0).map (·.1))).2)
+                  ((gnuOrder nb so syms0).map (·.1)))) := by
+  have hperm := Proofs.C03.gnuOrder_perm nb so syms0
+  have hgl : (gnuOrder nb so syms0).length = syms0.length := Proofs.C03.gnuOrder_length nb so syms0
+  have L := built_symtab_layout c.le c.cls pad share (gnuOrder nb so syms0) hcls
+    (fun s hs => hnul s (hperm.mem_iff.mp hs)) (fun s hs => hwf s (hperm.mem_iff.mp hs)) hlen
+    data symOff strOff rest1 rest2 h1 h2
+  rw [hgl] at L
+  have hel : (builtEntries (gnuOrder nb so syms0) (buildStrtab share ((gnuOrder nb so syms0).map (·.1))).2).length
+      = syms0.length := by rw [← L.nlen, List.length_map, hgl]
+  have a := iter_symbols_exact_generated c S hS L
+  have b := gnu_lookup_built_generated c S hS syms0 nb so bs sh L hnb hnb32 hbs hbs32 hsh32 hso1 hson hn32 hashOff rest3 h3
+  rw [hel] at a b
+  exact ⟨a, b⟩
+
+
+/-! ### non-vacuity of the whole-file and `_generated` forms -/
+
+/-- a file: the two-entry ELF32 symbol table of `exData`, its string table, then the SysV hash table
+    built for its names, then a packed two-entry syminfo table -/
+def exFile : Bytes :=
+  exData ++ encSysV true (buildSysV [[], [0x61]] 1) ++ encSyminfo true [(0, 0), (0xffff, 5)]
+
+theorem ex_file_layout : SymtabLayout true 32 exFile ⟨0, 32, 16⟩ 32 [exE0, exE1] [[], [0x61]] where
+  hcls := Or.inl rfl
+  entpos := by decide
+  size := by decide
+  nlen := rfl
+  wf := by
+    intro i hi
+    match i, hi with
+    | 0, _ => show exE0.WF 32 = true; decide
+    | 1, _ => show exE1.WF 32 = true; decide
+  entry := by
+    intro i hi
+    match i, hi with
+    | 0, _ => exact ⟨exFile.drop 16, by show List.drop 0 exFile = encSym true 32 exE0 ++ _; decide⟩
+    | 1, _ => exact ⟨exFile.drop 32, by show List.drop 16 exFile = encSym true 32 exE1 ++ _; decide⟩
+  name := by
+    intro i hi
+    match i, hi with
+    | 0, _ => show strAt (List.drop 32 exFile) 0 = some []; decide
+    | 1, _ => show strAt (List.drop 32 exFile) 1 = some [0x61]; decide
+
+/-- the hypotheses of `sysv_lookup_built_file` are met by `exFile` (hash table at offset 35) … -/
+example (env : Env) (m : String) (sol core : Bool) :
+    ∃ params, elfHashInit (Spec.elfStructs ⟨true, 32, m, sol, core⟩) env exFile 35 = .ok params
+      ∧ elfHashCount params = .ok (.int 2)
+      ∧ ∀ name, elfHashGetSymbol params (getSymbol (Spec.elfStructs ⟨true, 32, m, sol, core⟩) env exFile ⟨0, 32, 16⟩ 32) name
+          = .ok ((sysvLastNamed [[], [0x61]] name).map (symObs env.enumDecode 32 [exE0, exE1] [[], [0x61]])) :=
+  sysv_lookup_built_file env m sol core ex_file_layout 1 (by decide) (by decide) (by decide) (by decide) 35
+    (encSyminfo true [(0, 0), (0xffff, 5)]) (by decide)
+
+/-- … and those of `syminfo_iter_exact` (syminfo table at offset 55, `sh_size` 8, `sh_entsize` 4) -/
+example (env : Env) (m : String) (sol core : Bool) :
+    syminfoIter (Spec.elfStructs ⟨true, 32, m, sol, core⟩) env exFile ⟨55, 8, 4⟩ ⟨0, 32, 16⟩ 32
+      = .ok [(obsSyminfo env.enumDecode (0xffff, 5), [0x61])] :=
+  (syminfo_iter_exact env m sol core ex_file_layout
+    (syminfo_packed_layout true exFile ⟨55, 8, 4⟩ [(0, 0), (0xffff, 5)] [] (by decide) (by decide) (by decide) (by decide))
+    (by decide)).2
+
+/-- the configuration of `exFile` is one the translator enumerated, so the `_generated` forms apply to it -/
+example : (Gen.elfBundles.map (·.1)).contains ⟨true, 32, "default", false, false⟩ = true := by decide +kernel
+
+/-- the hypotheses of the whole-image theorems on a symbol list with duplicate, empty and colliding names:
+    NUL-free names, fields in range, string table below 2^32 — and the three sections laid end to end
+    satisfy the three placement hypotheses -/
+def exSyms : List (Bytes × SymE) := exNames.map fun n => (n, { exE1 with stName := 0 })
+example : (∀ s ∈ exSyms, (0 : UInt8) ∉ s.1) ∧ (∀ s ∈ exSyms, s.2.WF 32 = true)
+    ∧ (buildStrtab true (exSyms.map (·.1))).1.length < 2 ^ 32
+    ∧ (buildStrtab false ((gnuOrder 5 2 exSyms).map (·.1))).1.length < 2 ^ 32 := by decide
+example (A B C : Bytes) : (A ++ B ++ C).drop 0 = A ++ (B ++ C) ∧ (A ++ B ++ C).drop A.length = B ++ C
+    ∧ (A ++ B ++ C).drop (A.length + B.length) = C ++ [] := by
+  refine ⟨by simp, by simp, ?_⟩
+  rw [← List.length_append, List.append_nil]; exact List.drop_left' rfl
 
 end PyElf.Props.C03
